@@ -14,6 +14,9 @@
 (*                  generateSecurities + internal/bitset; the run-time pc  *)
 (*                  machine = the security block of handlers.tmpl with     *)
 (*                  byte/bit arithmetic (S4).                              *)
+(* Dev_RejectedCredentialDenies: the generated security block returns 401  *)
+(*   as soon as the security handler returns an error other than "skip",   *)
+(*   also when another alternative is fully accepted (fail-closed).        *)
 (* Dev_SkippedRequirementKeepsIndexes: a requirement skipped because of a  *)
 (*   not-implemented scheme leaves its scheme indexes behind while the     *)
 (*   array length only counts kept requirements (fixed in gen/ir).         *)
@@ -27,16 +30,16 @@ Satisfiable(reqs, cred) == \E i \in 1..Len(reqs) : reqs[i] \subseteq Accepted(cr
 Mentioned(reqs) == UNION {reqs[i] : i \in 1..Len(reqs)}
 
 \* outcomes: "handler" (the operation handler ran) | "401" (denied, handler not run)
-\* An operation without requirements is public.  When a credential is hard-rejected
-\* while another alternative is satisfied, both readings of the statement are admitted
-\* (fail-closed denial, or admission through the satisfied alternative).
-\* consulted: the schemes whose rejection may deny the request (normally those the
-\* requirements mention; with ignore_not_implemented also the implemented schemes of a
-\* dropped alternative -- the statement says nothing about those, so both outcomes stay admitted)
+\* An operation without requirements is public.  The statement is read to the letter: the
+\* handler runs iff some alternative has every scheme accepted -- a rejected credential of
+\* another alternative does not change that.
+\* consulted: with ignore_not_implemented the implemented schemes of a dropped alternative
+\* are still consulted; the statement says nothing about credentials of schemes no kept
+\* requirement mentions, so a rejection there leaves both outcomes admitted.
 AllowedM(reqs, cred, consulted) ==
   IF reqs = <<>> THEN {"handler"}
   ELSE IF ~Satisfiable(reqs, cred) THEN {"401"}
-  ELSE IF Rejected(cred) \cap consulted # {} THEN {"401", "handler"}
+  ELSE IF Rejected(cred) \cap (consulted \ Mentioned(reqs)) # {} THEN {"401", "handler"}
   ELSE {"handler"}
 Allowed(reqs, cred) == AllowedM(reqs, cred, Mentioned(reqs))
 
@@ -87,7 +90,7 @@ InitRT == [pc |-> "check", i |-> 1, sat |-> {}, calls |-> <<>>]
 \* sat is kept as the set of 0-based indexes set in `satisfied`; SatByte gives the byte
 SatByte(sat, b) == SumOf({Pow2(n % 8) : n \in {x \in sat : x \div 8 = b}})
 
-StepRT(st, reqs, notImpl, cred) ==
+StepRT(st, reqs, notImpl, cred, devs) ==
   LET ord == Ord(reqs, notImpl) IN
   CASE st.pc = "check" ->
          IF ord = <<>> THEN [st EXCEPT !.pc = "handler"]                  \* no Securities: no security block is generated
@@ -96,16 +99,17 @@ StepRT(st, reqs, notImpl, cred) ==
            (CASE c = "absent" -> [st EXCEPT !.i = st.i + 1]                                   \* handler not consulted
               [] c = "accept" -> [st EXCEPT !.i = st.i + 1, !.sat = st.sat \cup {st.i - 1}, !.calls = Append(st.calls, s)]
               [] c = "skip" -> [st EXCEPT !.i = st.i + 1, !.calls = Append(st.calls, s)]
-              [] c = "reject" -> [st EXCEPT !.pc = "401", !.calls = Append(st.calls, s)])
+              [] c = "reject" -> IF "Dev_RejectedCredentialDenies" \in devs THEN [st EXCEPT !.pc = "401", !.calls = Append(st.calls, s)]
+                                 ELSE [st EXCEPT !.i = st.i + 1, !.calls = Append(st.calls, s)])
     [] st.pc = "eval" ->
          LET masks == Masks(reqs, notImpl)
              ok == \E r \in 1..Len(masks) :
                       \A b \in DOMAIN masks[r] : (SatByte(st.sat, b) & masks[r][b]) = masks[r][b] IN
          [st EXCEPT !.pc = IF ok THEN "handler" ELSE "401"]
 
-RECURSIVE RunRT(_, _, _, _)
-RunRT(st, reqs, notImpl, cred) == IF st.pc \in {"handler", "401"} THEN st ELSE RunRT(StepRT(st, reqs, notImpl, cred), reqs, notImpl, cred)
-ImplOutcome(reqs, notImpl, cred) == RunRT(InitRT, reqs, notImpl, cred)
+RECURSIVE RunRT(_, _, _, _, _)
+RunRT(st, reqs, notImpl, cred, devs) == IF st.pc \in {"handler", "401"} THEN st ELSE RunRT(StepRT(st, reqs, notImpl, cred, devs), reqs, notImpl, cred, devs)
+ImplOutcome(reqs, notImpl, cred, devs) == RunRT(InitRT, reqs, notImpl, cred, devs)
 
 \* effective requirements the abstract layer speaks about: alternatives with a
 \* not-implemented scheme were dropped by explicit configuration (ignore_not_implemented)
